@@ -9,6 +9,61 @@ ALL = ['C%02d' % i for i in range(1, 21)]
 
 # id -> (spec modules, technique, level text, level note, design ref)
 CHECKS = {
+    'C01': (['FM94.tla', 'FM94Gen.tla', 'Tables.tla', 'Column.tla', 'Framing.tla', 'Wide.tla', 'Bits.tla'],
+            'TLA+ spec FM94.tla (FM-94 template walker as a state machine, tables read as data) model-checked by TLC over a template '
+            'catalogue x factors x bitmap bits x compression x subsets; every TLC behaviour (message octets assembled by Framing.tla) is '
+            'replayed into the real Decoder; sample corpus parsed by the specification in consume form and compared, with hook-recorded bit cursors',
+            'TLC enumerates every behaviour of the walker specification inside the stated bounds (invariants TypeOK, MissingIffAllOnes, '
+            'LinksPointBack, CursorIsSumOfWidths, ...); each behaviour carries a complete message built without pybufrkit and the real '
+            'decoder must return exactly the labels, scaled integers, strings and links of the specification; in the other direction the '
+            'specification itself parses each sample message and the decoder output and per-field cursors recorded by the hooks must agree.',
+            'Trusted: TLC; FM94.tla/Tables.tla/Framing.tla as the reading of FM-94; the table JSON files; the float->scaled-integer projection '
+            '(vf/pyb.py). Templates stay inside WF (DESIGN 2.6). Exhaustive only inside the bounds written into the evidence.',
+            'DESIGN.md section 3 C01'),
+    'C02': (['FM94.tla', 'FM94Gen.tla', 'Column.tla', 'Framing.tla'],
+            'TLA+ spec FM94.tla in produce form gives the canonical bits; TLC behaviours replayed into the real Encoder: uncompressed output '
+            'byte-identical to the message assembled by Framing.tla, compressed output re-read by the specification (consume form, second TLC run); '
+            're-encoded corpus parsed by the specification',
+            'Every TLC behaviour supplies values and the independently assembled message; the real encoder must reproduce it byte for byte when '
+            'uncompressed; compressed output is validated by the specification reading it back (values reconstruct, all-ones difference iff '
+            'missing, width 0 iff all subsets agree, zero padding).',
+            'Trusted: TLC; FM94.tla/Column.tla/Framing.tla; values handed over are exact decimals N/10^scale. Compressed output is judged by '
+            'legality, not equality with one canonical width.',
+            'DESIGN.md section 3 C02'),
+    'C03': (['Quant.tla', 'FM94.tla', 'Tables.tla'],
+            'TLA+ spec Quant.tla (value<->raw relation over exact decimals, parameters from the table files) model-checked by TLC on all inputs '
+            'around the range ends; every (case, input) replayed into the real Encoder/Decoder and judged by the relation; fixpoint E(render(D(b)))=b '
+            'on FM94 behaviours and double round trip on the corpus',
+            'TLC checks the relation (half-unit bound, no wrap / clip, refusal when nothing fits, fixpoint on the grid) for every enumerated input and '
+            'emits the permitted outcomes; the real encoder/decoder outcome for the same input must be one of them.',
+            'Trusted: TLC; Quant.tla; IEEE-754 rounding is not modelled (ties accepted either way, inputs have one digit beyond the scale); '
+            'cases limited to 32-bit arithmetic.',
+            'DESIGN.md section 3 C03'),
+    'C05': (['Column.tla', 'ColumnMC.tla', 'FM94.tla'],
+            'TLA+ specs Column.tla/ColumnMC.tla: exhaustive TLC model of one compressed column (reader written separately from writer) over all '
+            'columns <=4 subsets, widths <=3/4, every legal difference width; the same columns generated as messages by FM94.tla (all-contents mode) '
+            'and replayed into Decoder, Encoder (output re-read by the specification) and the uncompressed path',
+            'Exhaustive inside the stated bounds on the specification and on the implementation: every column and every legal width is decoded by '
+            'the real decoder, the real encoder output is read by the independent reader, and the uncompressed form of the same subsets decodes to '
+            'identical values, labels and links.',
+            'Trusted: TLC; Column.tla as the reading of FM-94 94.6.3; the uncompressed side of the transparency comparison goes through pybufrkit itself.',
+            'DESIGN.md section 3 C05'),
+    'C06': (['FM94.tla', 'FM94Gen.tla', 'Framing.tla'],
+            'TLA+ spec FM94.tla with per-subset register reset (action property SubsetsStartFresh; a run with the leaky reset policy must violate it); '
+            'TLC emits each multi-subset behaviour together with every subset as its own message and the reversed message; all replayed into the real '
+            'Decoder/Encoder and compared position by position (values, labels, links, nested rendering)',
+            'TLC explores all combinations of per-subset replication factors and bitmaps for the catalogue (incl. templates that end inside operator '
+            'constructs); the implementation must decode each subset jointly exactly as alone and permute with the subsets.',
+            'Trusted: TLC; FM94.tla; Framing.tla for the solo messages.',
+            'DESIGN.md section 3 C06'),
+    'C07': (['FM94.tla', 'FM94Gen.tla'],
+            'TLA+ spec FM94.tla bitmap automaton model-checked by TLC over base templates x bitmap lengths 1..4/5 x all 0/1 patterns x operator chains '
+            '(action property KthValueKthZero with an independent NthZero scan, invariants on window, associated fields, 225255 parameters, meanings); '
+            'every behaviour replayed into the real Decoder/Encoder: bitmap_links and the attribute/meaning relations of the hierarchical view compared',
+            'All bitmap patterns up to the bound are enumerated on the specification and on the implementation; links, marker labels and parameters, '
+            'and the attribute placement in the real tree must equal the specification.',
+            'Trusted: TLC; the bitmap reading in FM94.tla (BackRefIncludesClass31 named); 204 across marker operators outside WF.',
+            'DESIGN.md section 3 C07'),
     'C15': (['PathParser.tla', 'Trace_PathParser.tla'],
             'TLA+ spec PathParser.tla (documented grammar as recogniser + 9-state character automaton) model-checked by TLC over every '
             'string up to length 5/6 over a 12-symbol alphabet; TLC-emitted verdicts replayed into NodePathParser; recorded parser '
